@@ -36,7 +36,7 @@ TYPE = T.mk("Type")
 
 def contexts(ex):
     """A symbolic choice of context.  Returns (typing VecV, defs VecV, description)."""
-    k = ex.choose(5)
+    k = ex.choose(8)
     lit = T.lit(z3.Int("ctxlit"))
     if k == 0:
         ent = [("param", INT)]
@@ -46,8 +46,16 @@ def contexts(ex):
         ent = [("def", INT, lit)]
     elif k == 3:
         ent = [("param", INT), ("def", T.mk("Pi", ["_", False, INT, INT]), T.mk("Lambda", ["n", False, INT, T.mk("Sum", [T.var("n", 0), T.var("p", 2)])]))]
-    else:
+    elif k == 4:
         ent = [("def", TYPE, INT), ("param", T.var("t", 0))]
+    # type-level aliases next to other entries: a lookup that is one entry off lands on a different
+    # definition (added after S-C05-02 and S-C03-02, which the first five shapes missed)
+    elif k == 5:
+        ent = [("def", TYPE, TYPE)]
+    elif k == 6:
+        ent = [("def", TYPE, INT), ("def", TYPE, TYPE), ("param", T.var("v", 1))]
+    else:
+        ent = [("def", INT, lit), ("def", TYPE, TYPE)]
     typing, defs = VecV(), VecV()
     for e in ent:
         if e[0] == "param":
